@@ -12,7 +12,7 @@ one() {
   for p in $(ls mutants/$id/*.patch seeded/$id/*/patch.diff 2>/dev/null); do
     if ! (cd $scratch && git apply --check /verif/$p 2>/dev/null); then echo "SKIP   $id $p (does not apply)"; continue; fi
     (cd $scratch && git apply /verif/$p)
-    out=$(GOVC_REPO=$scratch ${GOVC_BIN:-./bin/govc} check --property $id --tier quick 2>&1); rc=$?
+    out=$(GOVC_FAIL_FAST=${GOVC_FAIL_FAST:-1} GOVC_REPO=$scratch ${GOVC_BIN:-./bin/govc} check --property $id --tier quick 2>&1); rc=$?
     (cd $scratch && git apply -R /verif/$p)
     if [ -f "$(dirname $p)/BENIGN" ] || [[ "$p" == *benign* ]]; then
       if [ $rc -eq 0 ]; then echo "QUIET  $id $p (benign edit, check stayed at exit 0)"; else echo "FALSE-ALARM $id $p (exit $rc) :: $(echo "$out" | grep -m1 VIOLATION | cut -c1-160)"; fi
